@@ -195,6 +195,8 @@ def extract_model(ctx, c, f, t0):
             if pc and pc[2] in (opener, closer) and not contains(loop_match_of(ix, loop) or {}, s_["node"]):
                 conds = [(c_, pol) for c_, pol in norm.path_conditions(ix, s_["node"], upto=loop, arms=True) if not is_pc_test(c_)]
                 conds = [(c_, pol) for c_, pol in conds if not (c_.get("k") == "letexpr")]
+                # `match find_next_child(pc, expr) { None => .., Some(c) => .. }`: like the if-let form, a test of the traversal position
+                conds = [(c_, pol) for c_, pol in conds if not (c_.get("k") == "armpat" and any(is_local(x, pc_b[1]) for x in walk(resolve(c_["scrut"]))))]
                 try:
                     fm = ("const", True)
                     for c_, pol in conds:
